@@ -113,7 +113,7 @@ package lint
 //@   assigns \fresh, \after(lint)
 //@   ensures implies(!implementsI(lint, Configurable), result == nil)
 
-//@ func (Configuration).Configure [C11]
+//@ func (Configuration).Configure [C11 C02]
 //@   maypanic
 //@   assigns \fresh, \after(lint)
 
@@ -493,3 +493,16 @@ package lint
 //@   ensures implies(len(sources) == 0, result == nil)
 //@   ensures implies(len(sources) != 0, result != nil && fresh(result) &&
 //@                   all(s, LintSource, (indom(result, s) && result[s]) == exists(j, 0, len(sources), sources[j] == s)))
+
+// ---------------------------------------------------------------------------
+// configuration plumbing (C11 C02): errors stay local and never become panics
+
+//@ func (Configuration).resolveHigherScopedReferences
+//@   trusted
+//@   nopanic
+//@   assigns \fresh, \after(i)
+
+//@ func (Configuration).deserializeConfigInto [C11 C02]
+//@   requires c.tree != nil
+//@   nopanic
+//@   assigns \fresh, \after(target)
